@@ -59,7 +59,7 @@ def run(ctx):
 # ---------------------------------------------------------------------------
 def reviewed(T, table, fn, what):
     for e in T.get(table, []):
-        if e['fn'] == fn.path and e['what'] == what:
+        if norm_closures(e['fn']) == norm_closures(fn.path) and e['what'] == what:
             return e['reason']
     return None
 
